@@ -194,6 +194,8 @@ def symlen(x):
         return x.size
     if isinstance(x, Payload):
         return x.n
+    if isinstance(x, ByteList):
+        return builtins.len(x.items)
     return builtins.len(x)
 
 
@@ -420,11 +422,75 @@ def write_packed(stream, base, packed):
     return base + packed.size
 
 
+class ByteList:
+    """bytes-like value of concrete length whose bytes are terms (result of SymInt.to_bytes / join of such)."""
+
+    def __init__(self, items):
+        self.items = list(items)
+
+    def __getitem__(self, key):
+        if isinstance(key, slice):
+            return ByteList(self.items[key])
+        return self.items[key]
+
+    def __len__(self):
+        return builtins.len(self.items)
+
+    def __add__(self, other):
+        return ByteList(self.items + list(other.items if isinstance(other, ByteList) else other))
+
+    def __eq__(self, other):
+        if isinstance(other, ByteList) and len(other) == len(self):
+            cs = [a == b for a, b in zip(self.items, other.items)]
+            if all(isinstance(c, bool) for c in cs):
+                return all(cs)
+            return SymBool(z3.And(*[c.t if _sym(c) else z3.BoolVal(c) for c in cs]))
+        return False
+    __hash__ = None
+
+
+def symjoin(parts):
+    """stands for b''.join(...) when parts may be symbolic byte lists."""
+    parts = list(parts)
+    if all(isinstance(p, (bytes, bytearray)) for p in parts):
+        return b''.join(parts)
+    out = []
+    for p in parts:
+        out.extend(p.items if isinstance(p, ByteList) else list(p))
+    return ByteList(out)
+
+
 def int_to_bytes(x, length, byteorder, signed):
-    raise Unmodelled('SymInt.to_bytes outside the token table')
+    if signed:
+        raise Unmodelled('signed SymInt.to_bytes')
+    # Python raises OverflowError when the value does not fit: an explicit branch (obligation of the caller's harness)
+    fits = (x >= 0) & (x < (1 << (8 * length))) if length > 0 else (x == 0)
+    if not (fits if isinstance(fits, bool) else bool(fits)):
+        raise OverflowError('int too big to convert')
+    if not _sym(x):
+        return builtins.int(x).to_bytes(length, byteorder)
+    # definitional extension: the unique base-256 digits of x (exists because 0 <= x < 256^length on this path)
+    ctx = Ctx.cur
+    bs = [ctx.aux('byte', 0, 255) for _ in range(length)]
+    total = z3.Sum(*[bs[j] * (1 << (8 * j)) for j in range(length)]) if length else z3.IntVal(0)
+    ctx.add_side(z3.And(*[z3.And(b >= 0, b <= 255) for b in bs], total == _t(x)))
+    items = [SymInt(b, 0, 255) for b in bs]
+    if byteorder == 'big':
+        items.reverse()
+    return ByteList(items)
 
 
 def bytes_to_int(data, byteorder='big', signed=False):
+    if isinstance(data, ByteList):
+        items = list(data.items)
+        if byteorder == 'big':
+            items.reverse()
+        v = 0
+        for j, b in enumerate(items):
+            v = v + b * (1 << (8 * j))
+        if signed:
+            raise Unmodelled('signed from_bytes on a symbolic byte list')
+        return v
     if isinstance(data, Buf):
         data = data._view()
     n = data.n
